@@ -590,6 +590,9 @@ def verify_function(repo, con, schema, lib, registry=None, engine_cls=VEngine, n
             def sink(v, e):
                 yields.append(v)
                 ctx.yield_count = getattr(ctx, 'yield_count', 0) + 1
+                if not hasattr(ctx, 'yield_log'):
+                    ctx.yield_log = []
+                ctx.yield_log.append(v)
                 for name, fn in con.yield_ensures_:
                     ctx.oblige('yield', name, fn(ClauseEnv(it, fr, {}), view(it, v, ctx.heap)), {'line': e.lineno})
             fr.yield_sink = sink
